@@ -12,6 +12,26 @@ def tree_hashes(repo):
                     p = os.path.join(d, f)
                     out[os.path.relpath(p, repo)] = hashlib.sha256(open(p, "rb").read()).hexdigest()
     return out
+ASSUMED_TRAITS = r"(?:From\s*<[^{]+?>|Into\s*<[^{]+?>|PartialEq(?:\s*<[^{]+?>)?|Eq|Clone|Copy|Default|Hash|Drop|Deref|DerefMut|Borrow\s*<[^{]+?>|AsRef\s*<[^{]+?>|Display|Debug|Error)"
+def manual_impls(repo):
+    """hand-written impls of the traits the units take as derived / generated / side-effect free (assumption A3): `impl <Trait> for <Type>`
+    in the library sources, comments and #[cfg(test)] modules aside.  The units replace derives by their own structural derives, declare
+    the thiserror-generated From conversions as wrappers and know nothing of Drop: a NEW impl of this kind is code the contracts do not see."""
+    import re
+    out = []
+    for sub in ("rtmp/src", "amf0/src"):
+        for d, _, fs in os.walk(os.path.join(repo, sub)):
+            for f in sorted(fs):
+                if not f.endswith(".rs"): continue
+                p = os.path.join(d, f); rel = os.path.relpath(p, repo)
+                txt = open(p, errors="replace").read()
+                cut = txt.find("#[cfg(test)]")
+                if cut >= 0: txt = txt[:cut]
+                for n, line in enumerate(txt.split("\n"), 1):
+                    code = line.split("//")[0]
+                    m = re.match(r"\s*(?:unsafe\s+)?impl\s*(?:<[^>]*>)?\s*(?:::)?(?:[a-z_]+::)*(" + ASSUMED_TRAITS + r")\s+for\s+([A-Za-z_][A-Za-z0-9_:]*)", code)
+                    if m: out.append({"file": rel, "line": n, "impl": re.sub(r"\s+", " ", "%s for %s" % (m.group(1), m.group(2)))})
+    return out
 def baseline_fn_texts(repo):
     """verbatim text of every item the unit templates extract, on the baseline tree.  Used ONLY to adapt GHOST text (invariants,
     hints) to renamed locals (run_check.py adapt_ghost_renames): never verified, never compared with the code under test"""
@@ -34,6 +54,7 @@ if __name__ == "__main__":
     repo = sys.argv[1] if len(sys.argv) > 1 else "/repo"
     json.dump({"files": tree_hashes(repo)}, open(os.path.join(ROOT, "vc", "baseline_tree.json"), "w"), indent=1, sort_keys=True)
     print("baseline recorded:", len(tree_hashes(repo)), "files")
+    json.dump({"impls": sorted(set("%s: %s" % (e["file"], e["impl"]) for e in manual_impls(repo)))}, open(os.path.join(ROOT, "vc", "baseline_impls.json"), "w"), indent=1)
     fns = baseline_fn_texts(repo)
     json.dump(fns, open(os.path.join(ROOT, "vc", "baseline_fns.json"), "w"), indent=0, sort_keys=True)
     print("baseline item texts recorded:", len(fns))
